@@ -87,6 +87,15 @@ def canon_event(line: str) -> str:
     return f"{tag} {rest}" if rest else tag
 
 
+def mask_rp(line: str) -> str:
+    """Calls of the action classes of an `apply0< A... >` rule (ids from 3000000) carry no position: compare id and state depth only."""
+    if line.startswith('rp '):
+        p = line.split()
+        if len(p) == 9 and p[1].isdigit() and int(p[1]) >= 3000000:
+            return f"rp {p[1]} - - - - - - {p[8]}"
+    return line
+
+
 def parse_traces(text: str, impl: bool = False) -> Dict[str, Trace]:
     out: Dict[str, Trace] = {}
     cur = None
@@ -103,16 +112,16 @@ def parse_traces(text: str, impl: bool = False) -> Dict[str, Trace]:
         elif line.startswith('O '):
             cur.o = line
         elif line.startswith('S '):
-            cur.surv.append(line[2:])
+            cur.surv.append(mask_rp(line[2:]))
         elif line.startswith('T ') or line.startswith('TREE'):
             cur.tree.append(line)
         elif line.startswith('LS '):
             cur.leaf_sound = line[3:].strip()
         elif impl:
             cur.raw_events.append(line)
-            cur.events.append(canon_event(line))
+            cur.events.append(mask_rp(canon_event(line)))
         else:
-            cur.events.append(line)
+            cur.events.append(mask_rp(line))
     return out
 
 
